@@ -509,7 +509,6 @@ func expandThresholds(c *core.Ctx) []core.Obligation {
 	return obs
 }
 
-
 // expandResultChecked (written with D29): the two shortcut tests of s1.Interval.Expanded predict a full / empty result
 // from the length, with an allowance for rounding - but the endpoints are computed at magnitudes of up to 3*Pi and can
 // lose several times that allowance. If they pass each other, the arc between them is the complement of the intended
